@@ -71,6 +71,7 @@ type hist struct {
 	graphSent     map[int]uint64 // edge index -> height of the last DelegateTx submission
 	flagsAt       map[uint64]int
 	txsAt         map[uint64][]string
+	fs            *fsReplica       // the replica that falls behind and catches up through the real full sync
 	pendingEpoch  func(r *replica) // re-delivers the injected epoch results (stand-in for on-chain data)
 	cfg           *scenCfg
 }
@@ -96,6 +97,7 @@ type scenCfg struct {
 	big        bool // genesis with > 300 identities (NormalizedEpochDuration leaves its small-network branch)
 	epochs     bool
 	nProposers int
+	fsync      bool // add the lagging replica that catches up by full sync
 }
 
 func (h *hist) attachCeremony(r *replica) {
@@ -166,6 +168,9 @@ func newHist(seed int64, id int, cfg *scenCfg, out *tr.W) *hist {
 		h.props[k] = r
 	}
 	h.ref = h.reps[0]
+	if cfg.fsync {
+		h.newFS(23)
+	}
 	return h
 }
 
@@ -680,7 +685,13 @@ func (h *hist) block() bool {
 	if st := h.ref.n.App.State; st.ValidationPeriod() == state.AfterLongSessionPeriod && st.CanCompleteEpoch() {
 		// the coming block finishes the validation: the per-identity results (a stand-in for the
 		// answers recorded in blocks) are handed to every replica's ceremony before anybody evaluates
+		h.fsCatchup("before-epoch")
 		h.injectEpoch(height)
+	}
+	var fsSigners []int
+	fsNeed := 0
+	if h.fs != nil {
+		fsSigners, fsNeed = h.fsCommittee()
 	}
 	var subs []tr.M
 	var data []byte
@@ -888,6 +899,18 @@ func (h *hist) block() bool {
 		ids = append(ids, t["id"].(string))
 	}
 	h.txsAt[height] = ids
+	if h.fs != nil {
+		h.fsEnqueue(blk, fsSigners, fsNeed)
+		// Replicas.tla schedules the lagging replica too ("lag": stays behind, "sync": catches up now); without a
+		// schedule it catches up at random
+		k := ""
+		if len(h.cfg.sched) > 0 {
+			k = h.cfg.sched[(h.blockNo-1)%len(h.cfg.sched)]["fs"]
+		}
+		if len(h.fs.queue) >= 14 || k == "sync" && h.rnd.Intn(3) == 0 || k == "" && h.rnd.Intn(5) == 0 {
+			h.fsCatchup("lag")
+		}
+	}
 	if h.cfg.reorgs && height > 4 && h.rnd.Intn(5) == 0 {
 		h.reorg(height)
 	}
@@ -911,6 +934,7 @@ func (h *hist) reorg(head uint64) {
 		delete(h.flagsAt, x)
 		delete(h.ledgers, x)
 	}
+	h.fsReorg(to)
 	status := tr.M{}
 	for _, r := range h.reps {
 		if r.n.Chain.Head.Height() != head {
@@ -1142,6 +1166,9 @@ func (h *hist) injectEpoch(height uint64) {
 	for _, r := range h.reps {
 		h.pendingEpoch(r)
 	}
+	if h.fs != nil {
+		h.pendingEpoch(h.fs.r)
+	}
 }
 
 func main() {
@@ -1157,6 +1184,8 @@ func main() {
 	relFile := flag.String("rel", "", "relationship attempt paths exported by TLC from Relations.tla (json lines)")
 	graphFile := flag.String("graphs", "", "delegation graphs exported by TLC from EpochLoop.tla (json lines); one history per graph")
 	heavy := flag.Bool("identity-heavy", false, "bias the generator towards identity-changing events")
+	gasFile := flag.String("gas", "", "gas-boundary transaction lists exported by TLC from Gas.tla (json lines)")
+	fsync := flag.Bool("fsync", false, "add a replica that falls behind and catches up through the real full-sync code")
 	reorgs := flag.Bool("reorgs", false, "the network switches forks now and then (real ResetTo on every replica)")
 	flag.Parse()
 	var scheds []schedule
@@ -1186,6 +1215,11 @@ func main() {
 	if *relFile != "" {
 		paths, blocks := runRelations(*relFile, seed, w)
 		fmt.Fprintf(os.Stderr, "histories=%d blocks=%d refused=0 lines=%d\n", paths, blocks, w.N)
+		return
+	}
+	if *gasFile != "" {
+		n, blocks := runGas(*gasFile, seed, w)
+		fmt.Fprintf(os.Stderr, "histories=%d blocks=%d refused=0 lines=%d\n", n, blocks, w.N)
 		return
 	}
 	blocks, refused := 0, 0
@@ -1230,7 +1264,7 @@ func main() {
 		if *only >= 0 && i != *only {
 			continue
 		}
-		cfg := &scenCfg{blocks: *nb, epochs: *epochs, nProposers: 6, big: *big && i == 0, replays: *replays, heavy: *heavy, reorgs: *reorgs}
+		cfg := &scenCfg{blocks: *nb, epochs: *epochs, nProposers: 6, big: *big && i == 0, replays: *replays, heavy: *heavy, reorgs: *reorgs, fsync: *fsync}
 		if len(scheds) > 0 {
 			cfg.sched = scheds[i%len(scheds)]
 		}
@@ -1250,6 +1284,7 @@ func main() {
 			}
 			blocks++
 		}
+		h.fsCatchup("end")
 		h.finish()
 	}
 	_ = collector.NewStatsCollector
